@@ -205,7 +205,12 @@ ApplyVector(n, s) ==
                                                    "int", v[1]))
     [] n = "INTVECTOR.MEAN" -> IF ~Has(s, "ivec", 1) THEN Unfired(s)
                                ELSE LET sm == IntSumE(s.ivec[1], 0) IN
-                                    IF sm.ok THEN PushFloatRes(s, FDiv(FFromInt(sm.v), FFromInt(Len(s.ivec[1]))))
+                                    \* the i32 sum (where it is representable) divided in float arithmetic; exact when the
+                                    \* quotient is an integer below 2^24 (the correctly rounded quotient is then that integer)
+                                    IF sm.ok /\ Len(s.ivec[1]) > 0 /\ sm.v % Len(s.ivec[1]) = 0
+                                       /\ sm.v \div Len(s.ivec[1]) < 16777216 /\ sm.v \div Len(s.ivec[1]) > -16777216
+                                    THEN PushFloatRes(s, FV(FFromInt(sm.v \div Len(s.ivec[1]))))
+                                    ELSE IF sm.ok THEN PushFloatRes(s, FDiv(FFromInt(sm.v), FFromInt(Len(s.ivec[1]))))
                                     ELSE PushFloatRes(s, FAnyRes)
     [] n = "INTVECTOR.ONES"   -> VecConst(s, "ivec", 1)
     [] n = "INTVECTOR.ZEROS"  -> VecConst(s, "ivec", 0)
